@@ -20,6 +20,8 @@ CHECKS = {
     "C07": ("vf.checks_wire", "c07"),
     "C08": ("vf.checks_wire", "c08"),
     "C09": ("vf.checks_wire", "c09"),
+    "C10": ("vf.checks_msg", "c10"),
+    "C11": ("vf.checks_msg", "c11"),
     "C18": ("vf.checks_wire", "c18"),
     "C19": ("vf.checks_wire", "c19"),
 }
